@@ -2,7 +2,7 @@ HOOKS = dict(
     guard="CONCEPTCORE_VERIF",
     enable="tools/build_impl.py compiles /repo/ccl's seven unity TUs with -DCONCEPTCORE_VERIF -fsanitize=address,undefined into /verif/.cache/impl/<tree-hash>/",
     baseline_off_cmd="cmake --build /repo/_build -- -k 0 ; ctest --test-dir /repo/_build -j8 --timeout 900",
-    source_commits=[],
+    source_commits=["verif hook: seedable identifier generator under CONCEPTCORE_VERIF"],
     add_only=True,
 )
 NOTES = ("Every check: regenerate tables from /repo, lake build the property's theorems (kernel re-check), "
@@ -40,5 +40,9 @@ CHECKS = {
         text="Lean model of the selection logic of OpExtractBasis / OpMaxPart (CheckCst, IsCorrectlyDefined, the repeated list scan, SortSubset, backward closure) over an abstract source (ordered constituents with resolved inputs); specification: least closed set (inductive InMax) and dependency ancestors (inductive DepOf); statements: exact membership, order preserved (sublist), closed under dependencies — proved or listed partial in the evidence; a closed counterexample theorem records the pinned single-scan defect. Tie: generated schemas (random dependency shapes, list orders shuffled by admissible moves, incorrect members, all kinds) x all selections of size 1, sampled sizes 2-3, empty and foreign selections; the result uid list is compared with the model and with an independent Kleene-iteration oracle; closure, order and status/type preservation up to alias renumbering are judged on the implementation's result.",
         note="The copy (bulk InsertCopy + ResetAliases) is not modelled here (C08/C09). The single-scan defect was repaired by a fix: commit.",
     ),
+    "C12": dict(
+        text="Proved in Lean: the algebra of identifier translations that synthesis, merge and equation compose (EntityTranslation::SubstituteValues = simultaneous substitution independent of iteration order, SuperposeWith = composition with fall-through, Identity, EquationOptions::SwapKeyVal), tied to the real classes by a differential run. The end-to-end clauses of the property (every operand constituent represented by an existing result constituent, one survivor per equated pair, unique aliases, every mention rewritten and nothing else, refused tables change nothing, correctness and typification preserved for like-with-like tables over correct operands) are stated over the observed outcome and judged on the implementation itself for generated operand pairs and tables; there is no Lean model of BinarySynthes::Execute, which is why this check is labelled partial.",
+        note="Partial: theorem level covers the translation algebra only; the synthesis pipeline is covered by implementation-level oracles in forked children. Found and repaired: translation chain through deleted duplicates.",
+    ),
 }
-NOT_APPLICABLE = {p: PENDING for p in ["C01","C02","C03","C04","C05","C06","C08","C10","C12","C15","C17","C18","C19"]}
+NOT_APPLICABLE = {p: PENDING for p in ["C01","C02","C03","C04","C05","C06","C08","C10","C15","C17","C18","C19"]}
